@@ -254,7 +254,8 @@ class C11(Prop):
             'ETIMEDOUT) x position of the close request (none, before/between/after the writes; server: close(sock) '
             'or close()) x loop iterations between operations; the harness plays the poller. Exhaustive part: all '
             'scripts of length <= 3 over the 8 outcomes of the quantifier x {server, tcpclient, file} x 4 close '
-            'positions, payloads 4,3,5,2 bytes, all operations in one tick. non-trivial = a partial accept or a '
+            'positions, payloads 4,3,5,2 bytes, x {all operations in one tick, one loop iteration after each operation}. '
+            'non-trivial = a partial accept or a '
             'transient refusal was actually consumed by a send() while >= 2 non-empty written payloads were not yet '
             'fully accepted; distinct = distinct spec hash')
     assumptions = (
@@ -297,8 +298,9 @@ class C11(Prop):
             for script in itertools.product(ENUM_OUTCOMES, repeat=ln):
                 for ep in ('server', 'tcpclient', 'file'):
                     for c in ENUM_CLOSE:
-                        out.append({'ep': ep, 'sizes': ENUM_SIZES, 'script': list(script), 'close': c,
-                                    'pump': [], 'closeall': False, 'other': 0})
+                        for pump in ([], [1] * 5):   # all operations in one tick | one loop iteration after each
+                            out.append({'ep': ep, 'sizes': ENUM_SIZES, 'script': list(script), 'close': c,
+                                        'pump': pump, 'closeall': False, 'other': 0})
         return out
 
     # ------------------------------------------------------------------ real execution
